@@ -97,6 +97,11 @@ def expected(entries, keys):
     return out
 
 
+# value -> bool: the extracted mask_password leaves the value as it is (so
+# handing it out directly is the same as passing it through)
+UNCHANGED = [None]
+
+
 def matches(got, exp, inputs):
     """Compare an abstract result dict with the expectation."""
     if not isinstance(got, DictV) or got.unknown:
@@ -120,7 +125,9 @@ def matches(got, exp, inputs):
         elif e[0] == 'masked':
             want = T('call', 'mask_password', e[1], T('kw', 'secret', SECRET))
             want2 = T('call', 'mask_password', e[1], SECRET)
-            if gv not in (want, want2):
+            if gv not in (want, want2) and not (
+                    isinstance(gv, K) and gv == e[1] and
+                    UNCHANGED[0] is not None and UNCHANGED[0](gv.v)):
                 return ('value of key %s is %s, required mask_password'
                         '(value, secret)' % (show(k), show(gv)))
         else:
@@ -152,6 +159,18 @@ def run(ctx):
     rep.analysed('strutils.mask_dict_password')
     keys = world.const(MOD, '_SANITIZE_KEYS')
     rep.count('sanitize keys', len(keys), floor=1)
+    pipe = {}
+
+    def unchanged(text):
+        from .c04 import Pipeline
+        from ..core.termeval import CannotEval
+        if 'p' not in pipe:
+            pipe['p'] = Pipeline(ctx, keys)
+        try:
+            return pipe['p'].run(text, '\x00MASK\x00') == text
+        except (CannotEval, AnalysisError):
+            return False
+    UNCHANGED[0] = unchanged
 
     def stub(interp, args, kwargs):
         a = tuple(interp.termify(x) for x in args) + tuple(
@@ -220,6 +239,13 @@ def run(ctx):
                    ('()', K(())), ('False', K(False)), ('b""', K(b'')),
                    ('[1]', ListV([K(1)]))):
         analyse('non-mapping %s' % lab, lambda v=v: v, want_type_error=True)
+    # objects that merely look like a mapping (items()/keys()/[]) but are
+    # not collections.abc.Mapping instances
+    analyse('non-mapping object with items()',
+            lambda: mapping([(K('password'), K('p')), (K('a'), K(1))],
+                            'other', label='duck'), want_type_error=True)
+    analyse('non-mapping empty object with items()',
+            lambda: mapping([], 'other', label='duck'), want_type_error=True)
     # --- empty mappings
     for kind in ('dict', 'Mapping'):
         analyse('empty %s' % kind, lambda kind=kind: mapping([], kind))
@@ -235,7 +261,13 @@ def run(ctx):
     # --- near misses and non-string keys
     for k in (K('user'), K('tok'), K('passwor'), K(''), K(5), K((1, 2)),
               K(b'password'), K(None), K('pass word')):
-        for v in (K('text'), K(7), K(None), K(b'bytes')):
+        for v in (K('text'), K(7), K(None), K(b'bytes'),
+                  # secrets embedded in every notation mask_password knows,
+                  # and values made of other characters only
+                  K('<adminPass>x</adminPass>'), K('--password s3'),
+                  K("{'token': 'abc'}"), K('password=x'), K(''),
+                  K('sslkey "k"'), K('plain words only'), K(0), K(0.0),
+                  K(False), K(())):
             analyse('{%s: %s}' % (show(k), show(v)),
                     lambda k=k, v=v: mapping([(k, v)]))
     # --- ordered pairs of entry kinds (state carried between iterations)
